@@ -28,6 +28,9 @@ pub enum Op {
     Kick(usize),
     SetBase(usize, u16),
     SetNum(usize, u16),
+    /// the guest writes to a kick eventfd that the ring no longer uses (dropped by
+    /// GET_VRING_BASE or replaced); judged only while the ring is inactive
+    KickOld(usize),
 }
 
 const ALPHA1: [Op; 8] = [
@@ -74,7 +77,14 @@ fn gen_history(t: &mut Tape, nrings: usize, deep: bool) -> Vec<Op> {
             7 => Op::Enable(r, false),
             8 => Op::GetBase(r),
             9 => Op::Reset,
-            10 | 11 | 12 => Op::Kick(r),
+            10 | 11 => Op::Kick(r),
+            12 => {
+                if t.chance(1, 2) {
+                    Op::Kick(r)
+                } else {
+                    Op::KickOld(r)
+                }
+            }
             _ => {
                 if t.chance(1, 2) {
                     Op::SetBase(r, t.draw(65536) as u16)
@@ -176,6 +186,13 @@ fn run_v<V: VringT<GM<()>> + Clone + Send + Sync + 'static>(sim: &Sim, cfg: &Run
     let mut m: Vec<RingM> = vec![RingM::default(); nrings];
     let mut kickfds: Vec<Option<EventFd>> = (0..nrings).map(|_| None).collect();
     let mut callfds: Vec<Option<EventFd>> = (0..nrings).map(|_| None).collect();
+    let mut oldfds: Vec<Vec<EventFd>> = (0..nrings).map(|_| Vec::new()).collect();
+    {
+        // an event storm for an inactive ring never reaches quiescence: that is a violation
+        let mut st = sim.st();
+        st.cap_clause = Some("livelock");
+        st.step_cap = 8000;
+    }
     let mut seen = 0usize;
     sim.settle();
     for (step, op) in hist.iter().enumerate() {
@@ -209,7 +226,9 @@ fn run_v<V: VringT<GM<()>> + Clone + Send + Sync + 'static>(sim: &Sim, cfg: &Run
                 if let Err(e) = vmm.fe.set_vring_kick(r, &fd) {
                     viol("control_message_failed", format!("{op:?}"), format!("step {step} {op:?}: {e:?}"));
                 }
-                kickfds[r] = Some(fd);
+                if let Some(old) = kickfds[r].replace(fd) {
+                    oldfds[r].push(old);
+                }
                 m[r].has_kick = true;
                 m[r].pending = false;
                 m[r].started = true;
@@ -247,6 +266,20 @@ fn run_v<V: VringT<GM<()>> + Clone + Send + Sync + 'static>(sim: &Sim, cfg: &Run
                 m[r].started = false;
                 m[r].has_kick = false;
                 m[r].pending = false;
+                if let Some(old) = kickfds[r].take() {
+                    oldfds[r].push(old);
+                }
+            }
+            Op::KickOld(r) => {
+                let active = m[r].started && m[r].enabled;
+                match oldfds[r].last() {
+                    Some(fd) if !active => {
+                        crate::sched::point("guest.before_kick");
+                        fd.write(1).expect("kick write");
+                        sim.probe("kick_on_dropped_descriptor_while_inactive");
+                    }
+                    _ => skipped = true,
+                }
             }
             Op::Reset => {
                 if !proto_done {
